@@ -26,6 +26,10 @@ fn crc32_ref(data: &[u8]) -> u32 {
 fn crc32fast_hash_stub(buf: &[u8]) -> u32 { crc32_ref(buf) }
 #[cfg(kani)]
 fn fmt_stub(_args: core::fmt::Arguments<'_>) -> String { String::new() }
+// `#[track_caller]` / Location::caller() is not supported by Kani; the recorded compiler
+// location is irrelevant to every obligation here.
+#[cfg(kani)]
+fn here_stub() -> CompilerSourceRange { CompilerSourceRange { file: "", line: 0 } }
 
 // ---------------------------------------------------------------- opcode / type tags
 #[cfg_attr(kani, kani::proof)]
@@ -73,6 +77,7 @@ fn enc_dec_roundtrip(ins: EncodedInstr, expect: DecodedInstr) {
 #[cfg_attr(kani, kani::proof)]
 #[cfg_attr(kani, kani::unwind(40))]
 #[cfg_attr(kani, kani::stub(alloc::fmt::format, fmt_stub))]
+#[cfg_attr(kani, kani::stub(CompilerSourceRange::here, here_stub))]
 pub(crate) fn vkc07_instr_constload() {
     let (dst, const_id): (u32, u32) = (vk::any(), vk::any());
     enc_dec_roundtrip(EncodedInstr::ConstLoad { dst, const_id }, DecodedInstr::ConstLoad { dst, const_id });
@@ -80,6 +85,7 @@ pub(crate) fn vkc07_instr_constload() {
 #[cfg_attr(kani, kani::proof)]
 #[cfg_attr(kani, kani::unwind(40))]
 #[cfg_attr(kani, kani::stub(alloc::fmt::format, fmt_stub))]
+#[cfg_attr(kani, kani::stub(CompilerSourceRange::here, here_stub))]
 pub(crate) fn vkc07_instr_nullop() {
     let fxn_id: u64 = vk::any(); let dst: u32 = vk::any();
     enc_dec_roundtrip(EncodedInstr::NullOp { fxn_id, dst }, DecodedInstr::NullOp { fxn_id, dst });
@@ -87,6 +93,7 @@ pub(crate) fn vkc07_instr_nullop() {
 #[cfg_attr(kani, kani::proof)]
 #[cfg_attr(kani, kani::unwind(40))]
 #[cfg_attr(kani, kani::stub(alloc::fmt::format, fmt_stub))]
+#[cfg_attr(kani, kani::stub(CompilerSourceRange::here, here_stub))]
 pub(crate) fn vkc07_instr_unop() {
     let fxn_id: u64 = vk::any(); let (dst, src): (u32, u32) = (vk::any(), vk::any());
     enc_dec_roundtrip(EncodedInstr::UnOp { fxn_id, dst, src }, DecodedInstr::UnOp { fxn_id, dst, src });
@@ -94,6 +101,7 @@ pub(crate) fn vkc07_instr_unop() {
 #[cfg_attr(kani, kani::proof)]
 #[cfg_attr(kani, kani::unwind(40))]
 #[cfg_attr(kani, kani::stub(alloc::fmt::format, fmt_stub))]
+#[cfg_attr(kani, kani::stub(CompilerSourceRange::here, here_stub))]
 pub(crate) fn vkc07_instr_binop() {
     let fxn_id: u64 = vk::any(); let (dst, lhs, rhs): (u32, u32, u32) = (vk::any(), vk::any(), vk::any());
     enc_dec_roundtrip(EncodedInstr::BinOp { fxn_id, dst, lhs, rhs }, DecodedInstr::BinOp { fxn_id, dst, lhs, rhs });
@@ -101,6 +109,7 @@ pub(crate) fn vkc07_instr_binop() {
 #[cfg_attr(kani, kani::proof)]
 #[cfg_attr(kani, kani::unwind(40))]
 #[cfg_attr(kani, kani::stub(alloc::fmt::format, fmt_stub))]
+#[cfg_attr(kani, kani::stub(CompilerSourceRange::here, here_stub))]
 pub(crate) fn vkc07_instr_ternop() {
     let fxn_id: u64 = vk::any(); let (dst, a, b, c): (u32, u32, u32, u32) = (vk::any(), vk::any(), vk::any(), vk::any());
     enc_dec_roundtrip(EncodedInstr::TernOp { fxn_id, dst, a, b, c }, DecodedInstr::TernOp { fxn_id, dst, a, b, c });
@@ -108,6 +117,7 @@ pub(crate) fn vkc07_instr_ternop() {
 #[cfg_attr(kani, kani::proof)]
 #[cfg_attr(kani, kani::unwind(40))]
 #[cfg_attr(kani, kani::stub(alloc::fmt::format, fmt_stub))]
+#[cfg_attr(kani, kani::stub(CompilerSourceRange::here, here_stub))]
 pub(crate) fn vkc07_instr_quadop() {
     let fxn_id: u64 = vk::any(); let (dst, a, b, c, d): (u32, u32, u32, u32, u32) = (vk::any(), vk::any(), vk::any(), vk::any(), vk::any());
     enc_dec_roundtrip(EncodedInstr::QuadOp { fxn_id, dst, a, b, c, d }, DecodedInstr::QuadOp { fxn_id, dst, a, b, c, d });
@@ -115,11 +125,10 @@ pub(crate) fn vkc07_instr_quadop() {
 #[cfg_attr(kani, kani::proof)]
 #[cfg_attr(kani, kani::unwind(40))]
 #[cfg_attr(kani, kani::stub(alloc::fmt::format, fmt_stub))]
+#[cfg_attr(kani, kani::stub(CompilerSourceRange::here, here_stub))]
 pub(crate) fn vkc07_instr_vararg() {
     let fxn_id: u64 = vk::any(); let dst: u32 = vk::any();
-    let n: usize = vk::any(); vk::assume(n <= 3);
-    let all = [vk::any::<u32>(), vk::any::<u32>(), vk::any::<u32>()];
-    let args: Vec<u32> = all[..n].to_vec();
+    let args: Vec<u32> = vec![vk::any::<u32>(), vk::any::<u32>()];
     enc_dec_roundtrip(EncodedInstr::VarArg { fxn_id, dst, args: args.clone() }, DecodedInstr::VarArg { fxn_id, dst, args });
 }
 // Ret is 5 bytes; a Ret that is followed by another instruction decodes; the
@@ -127,6 +136,7 @@ pub(crate) fn vkc07_instr_vararg() {
 #[cfg_attr(kani, kani::proof)]
 #[cfg_attr(kani, kani::unwind(40))]
 #[cfg_attr(kani, kani::stub(alloc::fmt::format, fmt_stub))]
+#[cfg_attr(kani, kani::stub(CompilerSourceRange::here, here_stub))]
 pub(crate) fn vkc07_instr_ret_then_constload() {
     let src: u32 = vk::any(); let (dst, const_id): (u32, u32) = (vk::any(), vk::any());
     let mut buf: Vec<u8> = Vec::new();
@@ -142,35 +152,47 @@ pub(crate) fn vkc07_instr_ret_then_constload() {
 #[cfg_attr(kani, kani::proof)]
 #[cfg_attr(kani, kani::unwind(40))]
 #[cfg_attr(kani, kani::stub(alloc::fmt::format, fmt_stub))]
+#[cfg_attr(kani, kani::stub(CompilerSourceRange::here, here_stub))]
 pub(crate) fn vkc07_instr_ret_last() {
     let src: u32 = vk::any();
     enc_dec_roundtrip(EncodedInstr::Ret { src }, DecodedInstr::Ret { src });
 }
 
 // truncated instruction stream => Err, never a panic, never a wrong instruction
-#[cfg_attr(kani, kani::proof)]
-#[cfg_attr(kani, kani::unwind(40))]
-#[cfg_attr(kani, kani::stub(alloc::fmt::format, fmt_stub))]
-pub(crate) fn vkc07_instr_truncated_binop() {
+fn truncated_binop_at(cut: usize) {
     let fxn_id: u64 = vk::any(); let (dst, lhs, rhs): (u32, u32, u32) = (vk::any(), vk::any(), vk::any());
     let mut buf: Vec<u8> = Vec::new();
     assert!(EncodedInstr::BinOp { fxn_id, dst, lhs, rhs }.write_to(&mut buf).is_ok());
-    let cut: usize = vk::any(); vk::assume(cut >= 1 && cut < buf.len());
     vk::reach();
     let r = decode_instructions(Cursor::new(&buf[..cut]));
     assert!(r.is_err(), "VK: a truncated instruction is rejected");
 }
+#[cfg_attr(kani, kani::proof)]
+#[cfg_attr(kani, kani::unwind(40))]
+#[cfg_attr(kani, kani::stub(alloc::fmt::format, fmt_stub))]
+#[cfg_attr(kani, kani::stub(CompilerSourceRange::here, here_stub))]
+pub(crate) fn vkc07_instr_truncated_binop_cut5() { truncated_binop_at(5); }
+#[cfg_attr(kani, kani::proof)]
+#[cfg_attr(kani, kani::unwind(40))]
+#[cfg_attr(kani, kani::stub(alloc::fmt::format, fmt_stub))]
+#[cfg_attr(kani, kani::stub(CompilerSourceRange::here, here_stub))]
+pub(crate) fn vkc07_instr_truncated_binop_cut12() { truncated_binop_at(12); }
+#[cfg_attr(kani, kani::proof)]
+#[cfg_attr(kani, kani::unwind(40))]
+#[cfg_attr(kani, kani::stub(alloc::fmt::format, fmt_stub))]
+#[cfg_attr(kani, kani::stub(CompilerSourceRange::here, here_stub))]
+pub(crate) fn vkc07_instr_truncated_binop_cut20() { truncated_binop_at(20); }
 
 // arbitrary bytes: no panic, and Ok(v) re-encodes to exactly the input
 #[cfg_attr(kani, kani::proof)]
-#[cfg_attr(kani, kani::unwind(26))]
+#[cfg_attr(kani, kani::unwind(14))]
 #[cfg_attr(kani, kani::stub(alloc::fmt::format, fmt_stub))]
+#[cfg_attr(kani, kani::stub(CompilerSourceRange::here, here_stub))]
 pub(crate) fn vkc07_decode_instructions_any_bytes() {
-    const N: usize = 22;
+    const N: usize = 10;
     let mut bytes = [0u8; N];
     let mut i = 0; while i < N { bytes[i] = vk::any(); i += 1; }
-    let n: usize = vk::any(); vk::assume(n <= N);
-    // keep VarArg counts small enough for the unwinding bound (the count is data-dependent)
+    let n: usize = N;
     vk::reach();
     let r = decode_instructions(Cursor::new(&bytes[..n]));
     if let Ok(v) = r {
@@ -186,6 +208,7 @@ pub(crate) fn vkc07_decode_instructions_any_bytes() {
 #[cfg_attr(kani, kani::proof)]
 #[cfg_attr(kani, kani::unwind(30))]
 #[cfg_attr(kani, kani::stub(alloc::fmt::format, fmt_stub))]
+#[cfg_attr(kani, kani::stub(CompilerSourceRange::here, here_stub))]
 pub(crate) fn vkc07_const_entry_roundtrip() {
     let e = ConstEntry { type_id: vk::any(), enc: ConstEncoding::Inline, align: vk::any(), flags: vk::any(), reserved: 0,
                          offset: vk::any(), length: vk::any() };
@@ -211,6 +234,7 @@ pub(crate) fn vkc07_const_entry_roundtrip() {
 #[cfg_attr(kani, kani::proof)]
 #[cfg_attr(kani, kani::unwind(60))]
 #[cfg_attr(kani, kani::stub(alloc::fmt::format, fmt_stub))]
+#[cfg_attr(kani, kani::stub(CompilerSourceRange::here, here_stub))]
 pub(crate) fn vkc07_parse_const_entries_short_input() {
     // count says 2 entries, table holds fewer than 48 bytes => Err (no panic, no partial result)
     const N: usize = 47;
@@ -236,6 +260,7 @@ fn any_header() -> ByteCodeHeader {
 #[cfg_attr(kani, kani::proof)]
 #[cfg_attr(kani, kani::unwind(130))]
 #[cfg_attr(kani, kani::stub(alloc::fmt::format, fmt_stub))]
+#[cfg_attr(kani, kani::stub(CompilerSourceRange::here, here_stub))]
 pub(crate) fn vkc07_header_roundtrip() {
     let h = any_header();
     let mut buf: Vec<u8> = Vec::new();
@@ -256,26 +281,38 @@ pub(crate) fn vkc07_header_roundtrip() {
 }
 
 // ---------------------------------------------------------------- CRC gate
-#[cfg_attr(kani, kani::proof)]
-#[cfg_attr(kani, kani::unwind(12))]
-#[cfg_attr(kani, kani::stub(alloc::fmt::format, fmt_stub))]
-#[cfg_attr(kani, kani::stub(crc32fast::hash, crc32fast_hash_stub))]
-pub(crate) fn vkc07_crc_gate() {
-    const N: usize = 10;
+fn crc_gate_len<const N: usize>() {
     let mut bytes = [0u8; N];
     let mut i = 0; while i < N { bytes[i] = vk::any(); i += 1; }
-    let n: usize = vk::any(); vk::assume(n <= N);
-    let mut cur = Cursor::new(&bytes[..n]);
+    let mut cur = Cursor::new(&bytes[..]);
     vk::reach();
-    let r = verify_crc_trailer_seek(&mut cur, n as u64);
-    if n < 4 {
+    let r = verify_crc_trailer_seek(&mut cur, N as u64);
+    if N < 4 {
         assert!(r.is_err(), "VK: a file shorter than the trailer is rejected");
     } else {
-        let want = crc32_ref(&bytes[..n - 4]);
-        let got = u32::from_le_bytes([bytes[n - 4], bytes[n - 3], bytes[n - 2], bytes[n - 1]]);
+        let want = crc32_ref(&bytes[..N - 4]);
+        let got = u32::from_le_bytes([bytes[N - 4], bytes[N - 3], bytes[N - 2], bytes[N - 1]]);
         assert!(r.is_ok() == (want == got), "VK: accepted iff CRC-32 of everything before the trailer equals the little-endian trailer");
     }
 }
+#[cfg_attr(kani, kani::proof)]
+#[cfg_attr(kani, kani::unwind(12))]
+#[cfg_attr(kani, kani::stub(alloc::fmt::format, fmt_stub))]
+#[cfg_attr(kani, kani::stub(CompilerSourceRange::here, here_stub))]
+#[cfg_attr(kani, kani::stub(crc32fast::hash, crc32fast_hash_stub))]
+pub(crate) fn vkc07_crc_gate_len3() { crc_gate_len::<3>(); }
+#[cfg_attr(kani, kani::proof)]
+#[cfg_attr(kani, kani::unwind(12))]
+#[cfg_attr(kani, kani::stub(alloc::fmt::format, fmt_stub))]
+#[cfg_attr(kani, kani::stub(CompilerSourceRange::here, here_stub))]
+#[cfg_attr(kani, kani::stub(crc32fast::hash, crc32fast_hash_stub))]
+pub(crate) fn vkc07_crc_gate_len4() { crc_gate_len::<4>(); }
+#[cfg_attr(kani, kani::proof)]
+#[cfg_attr(kani, kani::unwind(12))]
+#[cfg_attr(kani, kani::stub(alloc::fmt::format, fmt_stub))]
+#[cfg_attr(kani, kani::stub(CompilerSourceRange::here, here_stub))]
+#[cfg_attr(kani, kani::stub(crc32fast::hash, crc32fast_hash_stub))]
+pub(crate) fn vkc07_crc_gate_len7() { crc_gate_len::<7>(); }
 
 // every flipped bit / burst of <= 32 bits changes acceptance: machine-checked
 // on the reference CRC for payloads <= 6 bytes (bounded), mathematics beyond.
@@ -306,12 +343,14 @@ pub(crate) fn vkc07_crc_burst_detected() {
 #[cfg_attr(kani, kani::proof)]
 #[cfg_attr(kani, kani::unwind(140))]
 #[cfg_attr(kani, kani::stub(alloc::fmt::format, fmt_stub))]
+#[cfg_attr(kani, kani::stub(CompilerSourceRange::here, here_stub))]
 #[cfg_attr(kani, kani::stub(crc32fast::hash, crc32fast_hash_stub))]
 pub(crate) fn vkc07_load_requires_crc() {
     const H: usize = ByteCodeHeader::HEADER_SIZE;
-    let mut h = any_header();
-    h.magic = *b"MECH";
-    h.feature_off = 0; h.types_off = 0; h.const_tbl_off = 0; h.const_blob_off = 0; h.symbols_off = 0; h.instr_off = 0; h.dict_off = 0;
+    // every section empty; a few fields symbolic so that the CRC is not a constant
+    let mut h = ByteCodeHeader { magic: *b"MECH", version: vk::any(), mech_ver: vk::any(), flags: 0, reg_count: vk::any(), instr_count: 0,
+        feature_count: 0, feature_off: 0, types_count: 0, types_off: 0, const_count: 0, const_tbl_off: 0, const_tbl_len: 0,
+        const_blob_off: 0, const_blob_len: 0, symbols_len: 0, symbols_off: 0, instr_off: 0, instr_len: 0, dict_off: 0, dict_len: 0, reserved: 0 };
     let mut file: Vec<u8> = Vec::new();
     assert!(h.write_to(&mut file).is_ok());
     let t = [vk::any::<u8>(), vk::any::<u8>(), vk::any::<u8>(), vk::any::<u8>()];
@@ -327,5 +366,5 @@ pub(crate) fn vkc07_load_requires_crc() {
 vk_registry!{ vkreplay_c07_program;
   vkc07_opcode_from_u8, vkc07_typetag_from_u16, vkc07_instr_constload, vkc07_instr_nullop, vkc07_instr_unop, vkc07_instr_binop,
   vkc07_instr_ternop, vkc07_instr_quadop, vkc07_instr_vararg, vkc07_instr_ret_then_constload, vkc07_instr_ret_last,
-  vkc07_instr_truncated_binop, vkc07_decode_instructions_any_bytes, vkc07_const_entry_roundtrip,
-  vkc07_parse_const_entries_short_input, vkc07_header_roundtrip, vkc07_crc_gate, vkc07_crc_burst_detected, vkc07_load_requires_crc }
+  vkc07_instr_truncated_binop_cut5, vkc07_instr_truncated_binop_cut12, vkc07_instr_truncated_binop_cut20, vkc07_decode_instructions_any_bytes, vkc07_const_entry_roundtrip,
+  vkc07_parse_const_entries_short_input, vkc07_header_roundtrip, vkc07_crc_gate_len3, vkc07_crc_gate_len4, vkc07_crc_gate_len7, vkc07_crc_burst_detected, vkc07_load_requires_crc }
